@@ -241,6 +241,37 @@ pub fn check_exec_named(source: &str, tgt: Tgt, arg_seed: u64, vectors: usize, e
     if let Err(csem::Stop::Bad(m)) = Sem::new(&unit, d).well_formed() {
         return Verdict::Fail { signature: format!("bad:{}", norm(&m)), detail: format!("the emitted text is ill-formed as {:?}: {}\n{}", d, m, text) };
     }
+    // Metal passes globals as parameters without their namespace and gives those that share their name with another
+    // global the names name_N, in declaration order. The N of all parameters of the text with that stem, sorted, are
+    // matched with the non-constant globals of that name in declaration order (only when the counts agree).
+    let generated_global_name = |pname: &str| -> Option<usize> {
+        let (stem, digits) = pname.rsplit_once('_')?;
+        let n: u64 = digits.parse().ok()?;
+        let globals: Vec<usize> = (0..module.global_registry.len())
+            .filter(|g| {
+                let def = &module.global_registry[*g];
+                out_name(&def.name.node) == stem && !(module.type_registry.is_const(def.type_id) && def.storage_class == ir::GlobalStorage::Static)
+            })
+            .collect();
+        let mut numbers: Vec<u64> = Vec::new();
+        for f in &unit.funcs {
+            for p in &f.params {
+                if let Some((s, d)) = p.name.rsplit_once('_') {
+                    if s == stem && p.mode == ctext::Mode::Ref {
+                        if let Ok(k) = d.parse::<u64>() {
+                            numbers.push(k);
+                        }
+                    }
+                }
+            }
+        }
+        numbers.sort();
+        numbers.dedup();
+        if numbers.len() != globals.len() {
+            return None;
+        }
+        numbers.iter().position(|k| *k == n).map(|i| globals[i])
+    };
     let mut labels: Vec<String> = Vec::new();
     let mut compared = 0usize;
     let reg = &module.function_registry;
@@ -274,6 +305,14 @@ pub fn check_exec_named(source: &str, tgt: Tgt, arg_seed: u64, vectors: usize, e
     for (si, sd) in module.struct_registry.iter().enumerate() {
         for mid in &sd.methods {
             owner.insert(mid.0, si);
+        }
+    }
+    // an instance of a member function template belongs to the struct of the template
+    for id in reg.iter() {
+        if let Some(inst) = reg.get_template_instantiation_data(id) {
+            if let Some(si) = owner.get(&inst.parent_id.0).copied() {
+                owner.insert(id.0, si);
+            }
         }
     }
     for (pos, (id, q)) in funcs.iter().enumerate() {
@@ -405,7 +444,7 @@ pub fn check_exec_named(source: &str, tgt: Tgt, arg_seed: u64, vectors: usize, e
                 if p.mode != ctext::Mode::Ref {
                     return Verdict::Fail { signature: "implicit-parameter-by-value".into(), detail: format!("extra parameter {} of {} is not a reference\n{}", p.name, tf.name, text) };
                 }
-                let gid = (0..module.global_registry.len()).find(|g| global_out_name(*g) == p.name);
+                let gid = (0..module.global_registry.len()).find(|g| global_out_name(*g) == p.name).or_else(|| generated_global_name(&p.name));
                 let Some(gid) = gid else {
                     return Verdict::Fail { signature: "implicit-parameter-unknown".into(), detail: format!("extra parameter {} of {} names no global\n{}", p.name, tf.name, text) };
                 };
